@@ -2,6 +2,7 @@
 package c16
 
 import (
+	"sync"
 	"bytes"
 	"crypto/ecdsa"
 	"crypto/elliptic"
@@ -610,3 +611,99 @@ func FuzzDID(f *testing.F) {
 		strProp.One(t, StrCase{S: s})
 	})
 }
+
+// ---------- concurrent conversions ----------
+
+// ConcCase: several goroutines convert DIDs of DIFFERENT keys (drawn so that keys of the same algorithm / curve
+// meet) to public keys and back at the same time; each must get the key of its own DID, as when run alone.
+type ConcCase struct {
+	Keys       []KeyRef `json:"keys"`
+	Goroutines int      `json:"goroutines"`
+	Rounds     int      `json:"rounds"`
+}
+
+type KeyRef struct {
+	Alg keys.Alg `json:"alg"`
+	Idx int      `json:"idx"`
+}
+
+func runConc(c *h.Ctx, cc ConcCase) {
+	type job struct {
+		text string
+		want crypto.PubKey
+		d    did.DID
+	}
+	var jobs []job
+	for _, k := range cc.Keys {
+		kk := keys.Get(k.Alg, k.Idx)
+		jobs = append(jobs, job{kk.DID.String(), kk.Priv.GetPublic(), kk.DID})
+	}
+	if len(jobs) == 0 {
+		return
+	}
+	var mu sync.Mutex
+	bad := ""
+	pv := h.Concurrently(cc.Goroutines, func(g int) {
+		for r := 0; r < cc.Rounds; r++ {
+			j := jobs[(g+r)%len(jobs)]
+			d, err := did.Parse(j.text)
+			if err != nil || d != j.d {
+				mu.Lock()
+				bad = fmt.Sprintf("Parse(%s) under concurrency: %v", j.text, err)
+				mu.Unlock()
+				return
+			}
+			pk, err := d.PubKey()
+			if err != nil || pk == nil || !pk.Equals(j.want) {
+				mu.Lock()
+				bad = fmt.Sprintf("%s yields another key (or an error: %v) while other DIDs are converted concurrently", j.text, err)
+				mu.Unlock()
+				return
+			}
+			if pk2, err := did.ToPubKey(j.text); err != nil || !pk2.Equals(j.want) {
+				mu.Lock()
+				bad = fmt.Sprintf("ToPubKey(%s) yields another key (or an error: %v) under concurrency", j.text, err)
+				mu.Unlock()
+				return
+			}
+			if d2, err := did.FromPubKey(pk); err != nil || d2 != j.d {
+				mu.Lock()
+				bad = fmt.Sprintf("FromPubKey(PubKey(%s)) = %s under concurrency", j.text, d2)
+				mu.Unlock()
+				return
+			}
+		}
+	})
+	if pv != nil {
+		c.Fail("C16/concurrent/panic", "panic in a concurrent conversion: %v", pv)
+	}
+	if bad != "" {
+		c.Fail("C16/concurrent/wrong-key", "%s", bad)
+	}
+	algs := map[keys.Alg]int{}
+	for _, k := range cc.Keys {
+		algs[k.Alg]++
+	}
+	c.P.NonTrivial([]any{"conc", cc.Keys, cc.Goroutines}, map[string]any{"concurrent_conversions": cc.Goroutines, "keys": cc.Keys, "rounds": cc.Rounds})
+	c.P.Class(fmt.Sprintf("concurrent/goroutines=%d", cc.Goroutines))
+}
+
+var concProp = h.Define(P, "concurrent", func(t *rapid.T) ConcCase {
+	cc := ConcCase{Goroutines: rapid.IntRange(2, 8).Draw(t, "goroutines"), Rounds: rapid.IntRange(20, 200).Draw(t, "rounds")}
+	alg := rapid.SampledFrom(keys.AllAlgs).Draw(t, "alg")
+	n := rapid.IntRange(2, 4).Draw(t, "nkeys")
+	for i := 0; i < n; i++ {
+		a := alg
+		if rapid.IntRange(0, 3).Draw(t, "otheralg") == 0 {
+			a = rapid.SampledFrom(keys.AllAlgs).Draw(t, "alg2")
+		}
+		idx := i
+		if a == keys.RSA {
+			idx = i % keys.RSAFast
+		}
+		cc.Keys = append(cc.Keys, KeyRef{Alg: a, Idx: idx})
+	}
+	return cc
+}, runConc)
+
+func TestConcurrentConversions(t *testing.T) { concProp.Check(t) }
